@@ -5,13 +5,13 @@
 (* the queries - never the Model's state or its query results.                *)
 (*   Mode = "all"  : breadth-first search, every call sequence of length      *)
 (*                   SeqLen over the (tiny) constants of the cfg file         *)
-(*   Mode = "walk" : tlc -simulate, one random sequence of length SeqLen per  *)
-(*                   behaviour; the mix of calls is given by Profile          *)
+(*   Mode = "walk" : tlc -simulate, one random sequence per behaviour; the    *)
+(*                   initial state picks one of Plans (mix of calls, length)  *)
 EXTENDS OsmCore, IOUtils, Json, CSV
 
-CONSTANTS Mode, SeqLen, Profile
-VARIABLE ops
-gvars == <<vars, ops>>
+CONSTANTS Mode, SeqLen
+VARIABLES ops, plan
+gvars == <<vars, ops, plan>>
 
 \* cumulative weights (of 100) of: new append, same pointer again, sort, docds, chgds, tagadd, tagsort, refadd
 Profiles == [ mixed      |-> <<38, 48, 62, 70, 78, 87, 91, 100>>,
@@ -19,7 +19,14 @@ Profiles == [ mixed      |-> <<38, 48, 62, 70, 78, 87, 91, 100>>,
               change     |-> <<50, 66, 76, 82, 100, 100, 100, 100>>,
               tags       |-> <<0, 0, 0, 0, 0, 75, 100, 100>>,
               refs       |-> <<0, 0, 0, 0, 0, 0, 0, 100>> ]
-W == Profiles[Profile]
+\* the walks: call mix and length; PlanBag says how often each is taken (an index into it is the initial choice)
+Plans == << [p |-> "mixed", len |-> 8], [p |-> "mixed", len |-> 12], [p |-> "containers", len |-> 10],
+            [p |-> "change", len |-> 10], [p |-> "tags", len |-> 8], [p |-> "refs", len |-> 6] >>
+PlanBag == <<1, 1, 1, 1, 1, 1, 1, 1, 1, 1, 1, 1, 1, 1, 1,  2, 2, 2, 2,  3, 3, 3, 3, 3, 3, 3, 3, 3,  4, 4, 4, 4, 4, 4, 4, 4, 4,
+             5, 5, 5, 5, 5,  6, 6, 6, 6>>
+ThePlan == Plans[PlanBag[plan]]
+W == Profiles[ThePlan.p]
+TargetLen == IF Mode = "all" THEN SeqLen ELSE ThePlan.len
 
 NewOp(t, k, i, v, b) == [op |-> "append", to |-> t, s |-> Len(heap) + 1, k |-> k, id |-> (IF k = "bounds" THEN 0 ELSE i),
                          v |-> (IF IsElem(k) THEN v ELSE 0), vis |-> (IF IsElem(k) THEN b ELSE FALSE)]
@@ -47,11 +54,13 @@ Walk ==
              ELSE [op |-> "refadd", k |-> rk, id |-> i, v |-> rv, lat |-> la, lon |-> lo]
     IN Do(o) /\ ops' = Append(ops, o)
 
-GInit == Init /\ ops = << >>
-GNext == /\ Len(ops) < SeqLen
-         /\ IF Mode = "all" THEN Next /\ ops' = Append(ops, last') ELSE Walk
+GInit == Init /\ ops = << >> /\ plan \in (IF Mode = "all" THEN {0} ELSE 1 .. Len(PlanBag))
+GNext == /\ Len(ops) < TargetLen
+         /\ (IF Mode = "all" THEN Next /\ ops' = Append(ops, last') ELSE Walk)
+         /\ UNCHANGED plan
 GSpec == GInit /\ [][GNext]_gvars
 
-CaseRec == [ops |-> ops, qkeys |-> AllTagKeys, qids |-> SortedQIds, grid |-> GridVals]
-Emit == Len(ops) = SeqLen => CSVWrite("%1$s", <<ToJson(CaseRec)>>, IOEnv.OUT)
+Family == IF Mode = "all" THEN "all" ELSE ThePlan.p
+CaseRec == [ops |-> ops, fam |-> Family, qkeys |-> AllTagKeys, qids |-> SortedQIds, grid |-> GridVals]
+Emit == Len(ops) = TargetLen => CSVWrite("%1$s", <<ToJson(CaseRec)>>, IOEnv.OUT)
 =============================================================================
